@@ -7,7 +7,10 @@
 //! This version uses cell_to_children for expansion and stride-based sibling detection
 //! for compaction.
 
+#[cfg(not(felixpalmer_a5_rs_verif))]
 use std::collections::HashSet;
+#[cfg(felixpalmer_a5_rs_verif)]
+use crate::verif_set::HashSet;
 
 use crate::core::cell_info::get_num_children;
 use crate::core::serialization::{
